@@ -8,6 +8,7 @@ package types
 // C17: the owner the access-control list names for a key is the address of the FIRST entry with that key
 //@ func (a ACL) GetOwner(permKey string) (r sdk.Address)
 //@   props C17
+//@   panics_declared
 //@   ensures forall i int :: (0 <= i && i < len(a) && a[i].Key == permKey && (forall j int :: 0 <= j && j < i ==> a[j].Key != permKey)) ==> r == a[i].Addr
 //@   ensures (forall j int :: 0 <= j && j < len(a) ==> a[j].Key != permKey) ==> r == nil
 //@   loop 1 invariant 0 - 1 <= #rangeindex && #rangeindex < len(a)
